@@ -28,6 +28,10 @@ pub struct DiscoverInput {
     pub faults: Vec<(String, String)>,
     /// adversary acting while the scan runs: (scheduler steps to wait, action, relative path)
     pub adversary: Vec<(u64, String, String)>,
+    /// content of a pyproject.toml placed in an ANCESTOR directory of the relocated workspaces (it is not
+    /// the workspace's configuration and must have no effect)
+    #[serde(default)]
+    pub ancestor_config: Option<String>,
     pub sim: SimParams,
     pub run_seed: u64,
     #[serde(default)]
@@ -250,7 +254,12 @@ impl Scenario for Discover {
         }
         let mut sim = SimParams::gen(&mut rng, 3000);
         sim.max_steps = 20_000_000;
-        serde_json::to_value(DiscoverInput { spec, locations, excludes, faults, adversary, sim, run_seed, sandbox: None }).unwrap()
+        let ancestor_config = if !self.faults && rng.chance(400) {
+            Some(format!("[tool.pytest-language-server]\nexclude = {:?}\ndisabled_diagnostics = [\"undeclared-fixture\"]\n", rng.pick(&[vec!["*", "**/*"], vec!["**/conftest.py"], vec!["*test*"]])))
+        } else {
+            None
+        };
+        serde_json::to_value(DiscoverInput { spec, locations, excludes, faults, adversary, ancestor_config, sim, run_seed, sandbox: None }).unwrap()
     }
 
     fn exec(&self, input: &Value) -> RunOut {
@@ -283,6 +292,14 @@ impl Scenario for Discover {
             spec.ancestors = loc.iter().filter(|a| !a.starts_with('=')).cloned().collect();
             spec.root_name = loc.iter().find(|a| a.starts_with('=')).map(|a| a[1..].to_string());
             let root = spec.materialise(&sb.root());
+            if let (Some(cfg), true) = (&inp.ancestor_config, results.len() >= 1 && !self.faults) {
+                if let Some(parent) = root.parent() {
+                    if parent != sb.root() {
+                        let _ = std::fs::write(parent.join("pyproject.toml"), cfg);
+                        out.count("fault.pyproject_in_ancestor_directory", 1);
+                    }
+                }
+            }
             let mut hit = 0u64;
             if with_faults {
                 for (f, kind) in &inp.faults {
